@@ -78,24 +78,32 @@ func unwrapAny(v Value) Value {
 
 func init() {
 	reg := func(name string, h intrinsic) { intrinsics[rtPkg+name] = h }
-	reg("SymbolicMemory", func(e *Engine, s *State, f *Frame, fn *ssa.Function, args []Value, retIdx int, advance bool) (Value, bool) {
-		s.symMem = true
-		e.usedModels = true
-		// symbolic offsets mean linear arithmetic over 64-bit vectors: the tactic-based solver
-		// (simplification + bit-blasting) is far better at it than the incremental core
+	switchToIntSolver := func(e *Engine, s *State, what string) {
+		// linear arithmetic over 64-bit vectors: cvc5 with bit-vectors solved as integers is far better at it than a
+		// bit-blasting core
 		if e.sol.name != "cvc5-int" {
 			if len(s.pc) > 0 || e.sol.Queries > 0 {
-				e.errf("SymbolicMemory must be the first statement of the harness")
+				e.errf("%s must be the first statement of the harness", what)
 			}
 			ns, err := NewSolver("cvc5-int", e.c, e.sol.timeoutMs)
 			if err != nil {
 				e.errf("cannot start cvc5: %v", err)
 			}
 			ns.Queries, ns.Sat, ns.Unsat, ns.Unknown, ns.Time = e.sol.Queries, e.sol.Sat, e.sol.Unsat, e.sol.Unknown, e.sol.Time
-			ns.XEvery = 10 // modular harnesses issue few queries: cross-check every 10th
+			ns.XEvery = 10 // these harnesses issue few queries: cross-check every 10th with the other solver
 			e.sol.Close()
 			*e.sol = *ns
 		}
+	}
+	reg("SymbolicMemory", func(e *Engine, s *State, f *Frame, fn *ssa.Function, args []Value, retIdx int, advance bool) (Value, bool) {
+		s.symMem = true
+		e.usedModels = true
+		switchToIntSolver(e, s, "SymbolicMemory")
+		return nil, true
+	})
+	// IntegerSolver: only the back end is switched (byte memory stays concretised)
+	reg("IntegerSolver", func(e *Engine, s *State, f *Frame, fn *ssa.Function, args []Value, retIdx int, advance bool) (Value, bool) {
+		switchToIntSolver(e, s, "IntegerSolver")
 		return nil, true
 	})
 	reg("BytesUF", func(e *Engine, s *State, f *Frame, fn *ssa.Function, args []Value, retIdx int, advance bool) (Value, bool) {
